@@ -105,7 +105,9 @@ def match_finding(findings, prop, r, progs):
     return None
 
 
-def run(prop, tier):
+def run(prop, tier, collect=False):
+    """collect=True: do not print VIOLATION lines / write evidence; return (violations [(path, text)], inconclusive [str], coverage)
+    so that an E-SSA part of the same property can be merged (C14)."""
     t0 = time.time()
     cfg = CONFIG[prop]
     seed = common.seed_from_env()
@@ -164,15 +166,22 @@ def run(prop, tier):
         print("KNOWN-FINDING: property=%s %s: %s (%d counterexamples replayed, e.g. %s/%s inputs=%s outputs=%s)" % (
             prop, fid, f["what"], len(rs), rs[0]["prog"], rs[0]["builder"], rs[0]["cex"].get("inputs"), rs[0]["cex"].get("outputs")))
     vpaths = []
+    collected = []
     for n, (r, resp) in enumerate(violations):
-        path = common.write_cex(prop, n, dict(engine="ecs", property=prop, query=r["query"], request=request_of(r), result=r, native=resp))
+        path = common.write_cex(prop, 500 + n if collect else n, dict(engine="ecs", property=prop, query=r["query"], request=request_of(r), result=r, native=resp))
         vpaths.append(path)
-        if n < 20:
-            print("VIOLATION property=%s replay=%s   # %s %s/%s th=%d inputs=%s outputs=%s native=%s" % (
-                prop, path, r["query"], r["prog"], r["builder"], r["threshold"], r["cex"].get("inputs"), r["cex"].get("outputs"),
-                ("ok" if resp.get("ok") else (resp.get("error") or "")[:80])))
-    for r in inconclusive[:20]:
-        print("INCONCLUSIVE property=%s %s %s/%s th=%s result=%s note=%s" % (prop, r["query"], r["prog"], r["builder"], r.get("threshold"), r["result"], str(r.get("note") or r.get("replay") or "")[:300]))
+        text = "%s %s/%s th=%d inputs=%s outputs=%s native=%s" % (
+            r["query"], r["prog"], r["builder"], r["threshold"], r["cex"].get("inputs"), r["cex"].get("outputs"),
+            ("ok" if resp.get("ok") else (resp.get("error") or "")[:80]))
+        if collect:
+            if n < 20:
+                collected.append((path, text))
+        elif n < 20:
+            print("VIOLATION property=%s replay=%s   # %s" % (prop, path, text))
+    inc_lines = ["%s %s/%s th=%s result=%s note=%s" % (r["query"], r["prog"], r["builder"], r.get("threshold"), r["result"], str(r.get("note") or r.get("replay") or "")[:300]) for r in inconclusive[:20]]
+    if not collect:
+        for l in inc_lines:
+            print("INCONCLUSIVE property=%s %s" % (prop, l))
     # evidence
     nvar = len({(r["prog"], r["builder"], r["threshold"]) for r in judged})
     nprog = len({r["prog"] for r in judged})
@@ -208,6 +217,10 @@ def run(prop, tier):
     )
     assumptions = ["gnark-crypto/tinyfield arithmetic implements GF(47)", "the builders are field-generic (the U32 instantiation exercises the same source as U64)",
                    "HONEST uses an abstract model of the solver's row-solving rule (validated by C06 on the Go code)", "z3's SAT core is sound"]
+    if collect:
+        print("%s %s (E-CS part): %d variants, %d queries, %d discharged/%d, violations=%d known=%d inconclusive=%d, %.0fs" % (
+            prop, tier, nvar, len(judged), discharged, obligations, len(violations), sum(len(v) for v in known.values()), len(inconclusive), time.time() - t0))
+        return collected, inc_lines, dict(ecs=coverage, ecs_assumptions=assumptions)
     common.write_evidence(prop, tier, seed, "other", coverage, assumptions, time.time() - t0, len(violations))
     print("%s %s: %d variants, %d queries, %d discharged/%d, violations=%d known=%d inconclusive=%d, %.0fs" % (
         prop, tier, nvar, len(judged), discharged, obligations, len(violations), sum(len(v) for v in known.values()), len(inconclusive), time.time() - t0))
